@@ -127,12 +127,18 @@ func checkC15(c *Ctx, r *Report) {
 		}
 		ptrOK, slotOK := false, false
 		slotHow := ""
+		var otherStores []string
 		for _, e := range paths[0].Effects {
 			if e.Kind != "store" {
 				continue
 			}
 			lhs := normTerm(e.LHS)
 			rhs := normTerm(e.Term)
+			if !(strings.HasSuffix(lhs, "StackPointer") || strings.HasSuffix(lhs, ".Stackpos") || strings.HasSuffix(lhs, "StateSymStack") || strings.HasSuffix(lhs, ".StackSym")) {
+				if !isLocalStore(sk.Info, init, e) {
+					otherStores = append(otherStores, lhs)
+				}
+			}
 			if (strings.HasSuffix(lhs, "StackPointer") || strings.HasSuffix(lhs, ".Stackpos")) && rhs == "1" {
 				ptrOK = true
 			}
@@ -150,6 +156,12 @@ func checkC15(c *Ctx, r *Report) {
 		r.Check(ptrOK && slotOK, "C15.c", "R12 STATE-INVENTORY", name+"/ParserInit", sk.pos(init.Pos()),
 			"ParserInit sets the pointer to 1 and provides the entry {state 0, symbol 1 = end marker}: "+slotHow,
 			fmt.Sprintf("ParserInit does not re-establish the initial configuration (pointer = 1: %v, entry {Yystate: 0, YySymIndex: 1}: %v)", ptrOK, slotOK))
+		// re-initialisation touches the current parse's stack and pointer only: the saved contexts of enclosing
+		// parses (PushContex … ParserInit … Parser … PopContex), tables and flags are not its to reset
+		sort.Strings(otherStores)
+		r.Check(len(otherStores) == 0, "C15.c", "R12 STATE-INVENTORY", name+"/ParserInit/resets-only-the-current-stack", sk.pos(init.Pos()),
+			"ParserInit stores to the stack and the pointer and to nothing else",
+			fmt.Sprintf("ParserInit also stores to %v: re-initialising for a nested parse (PushContex; ParserInit; Parser; PopContex) destroys state that belongs to the enclosing parse", otherStores))
 		if !sk.V.Object {
 			c15FreshStack(r, "C15.c", sk)
 			c15SaveRestore(r, "C15.c", sk)
@@ -502,4 +514,47 @@ func firstVal(m map[string]string) string {
 		return v
 	}
 	return ""
+}
+
+// isLocalStore: the store's target is rooted at a variable declared inside fd (not the receiver, not package level).
+func isLocalStore(info *types.Info, fd *ast.FuncDecl, e Effect) bool {
+	if e.Node == nil {
+		return false
+	}
+	var root ast.Expr
+	switch x := e.Node.(type) {
+	case *ast.AssignStmt:
+		if len(x.Lhs) > 0 {
+			root = x.Lhs[0]
+		}
+	case *ast.IncDecStmt:
+		root = x.X
+	}
+	for root != nil {
+		switch x := unparen(root).(type) {
+		case *ast.Ident:
+			o := objOf(info, x)
+			if o == nil || o.Pkg() == nil {
+				return false
+			}
+			if o.Parent() == o.Pkg().Scope() {
+				return false
+			}
+			if fd.Recv != nil && len(fd.Recv.List) == 1 && len(fd.Recv.List[0].Names) == 1 && info.Defs[fd.Recv.List[0].Names[0]] == o {
+				return false
+			}
+			return o.Pos() >= fd.Pos() && o.Pos() < fd.End()
+		case *ast.SelectorExpr:
+			root = x.X
+		case *ast.IndexExpr:
+			root = x.X
+		case *ast.StarExpr:
+			root = x.X
+		case *ast.SliceExpr:
+			root = x.X
+		default:
+			return false
+		}
+	}
+	return false
 }
